@@ -391,3 +391,18 @@ func verifSameRes(a, b filter.Result) bool {
 	lb, rb := b.MatchedRule()
 	return fmt.Sprintf("%T", a) == fmt.Sprintf("%T", b) && la == lb && ra == rb
 }
+
+// VerifChainEnv is the main middleware over recorder stubs, for the harnesses of the
+// packages in front of it.
+type VerifChainEnv struct{ e *verifEnv }
+
+// VerifNewChainEnv returns the main middleware with recorder stubs behind it.
+func VerifNewChainEnv() *VerifChainEnv { return &VerifChainEnv{e: verifNewEnv()} }
+
+// Handler returns the main middleware wrapped around the stub upstream.
+func (c *VerifChainEnv) Handler() dnsserver.Handler { return c.e.mw.Wrap(c.e.ups) }
+
+// Counts returns how many log entries, billing records and upstream queries were made.
+func (c *VerifChainEnv) Counts() (logged, billed, resolved int) {
+	return c.e.qlog.calls, c.e.bill.calls, c.e.ups.calls
+}
